@@ -251,17 +251,22 @@ func (t *basicTaskBase) ensureBasicTaskKilled() (err error) {
 	if t.Tci.ControlMode == controlmode.HOOK {
 		return nil
 	}
+	pid := t.taskCmd.Process.Pid
 	// ProcessState is nil for as long as the process is running
-	if t.taskCmd.ProcessState != nil && t.taskCmd.ProcessState.Exited() {
+	if t.taskCmd.ProcessState != nil {
+		// already reaped, nobody would consume a pending state: only sweep what the task left in its process group
+		_ = syscall.Kill(-pid, syscall.SIGKILL)
 		return nil
 	}
 
 	// Preparing to kill running task
-	t.pendingFinalTaskStateCh <- mesos.TASK_KILLED
+	select {
+	case t.pendingFinalTaskStateCh <- mesos.TASK_KILLED:
+	default:
+	}
 
 	// TODO: SIGTERM before SIGKILL
 
-	pid := t.taskCmd.Process.Pid
 	err = syscall.Kill(-pid, syscall.SIGKILL)
 	if err != nil {
 		log.WithError(err).
